@@ -72,6 +72,15 @@ CHECKS.update({
         text="A complete litep2p node executes seeded histories of add_known_address (generated address shapes incl. missing / foreign / duplicate peer ids, unspecified and own addresses, unsupported stacks, up to 200 distinct addresses against the bound of 64, rediscovery of scored addresses) and dial(peer) whose connection attempts are resolved by the simulated network (refused, black-holed, connected to real peer nodes). After every step the stored addresses with scores are read through the guarded accessor (hook H4) and compared with the previous snapshot: only offered, well-formed, correctly attributed, non-local, dialable addresses appear; never more than 64; a displaced address had a minimal score and not a higher one than the newcomer; adding never changes the score of a stored address; a dial re-scores exactly the addresses it used (100 / -100) and nothing else; the order of SimNet connection attempts (max_parallel_dials=1) is non-increasing in score, without duplicates, limited by the outbound capacity, never skipping a better address; NoAddressAvailable iff nothing is stored.", ref="DESIGN.md §5 C10"),
 })
 
+CHECKS.update({
+    "C14": dict(engine="kadsim", technique="simulation of event histories against the real routing table with a brute-force reference model (no scheduler: single-task component)",
+        text="The real Kademlia RoutingTable receives seeded histories of the events Kademlia feeds it (peer discovered with addresses and connection type, connection established, disconnect, dial failure) over genuine peer ids, whose SHA-256 keys overflow the far buckets through the real API, and crafted raw keys (guarded hook) that populate every bucket 0..255. After every event the set of stored peers is probed and closest(target, k) is compared with a brute-force model for targets in every bucket relative to the local key (incl. the local key and distances 1..3) and k in {1,3,20,60}. Oracle: the local node is never stored; at most 20 stored peers share a bucket index; a connected peer is never displaced; closest() returns exactly the k stored address-bearing peers nearest to the target in non-decreasing XOR distance without duplicates. There is no schedule or clock in this property; it is decided with the history/reference-model part of the technique.", ref="DESIGN.md §5 C14"),
+    "C15": dict(engine="kadsim", technique="deterministic simulation: the real QueryEngine against a generated peer network, seeded reply scheduler (order, loss, lies) and clock jumps",
+        text="A harness plays Kademlia's role towards the real QueryEngine (next_action until None, then one network event) for 1-3 concurrent queries of every kind against a generated network (who knows whom; honest, lying, silent and unreachable peers) on the simulated clock; a seeded scheduler decides which outstanding request is answered, fails or keeps waiting and when the clock jumps across the 10 s peer time-out. Oracle: never a request to the local node or twice to the same peer; at most alpha unanswered requests younger than the peer time-out; exactly one terminal result per query within a step budget for every reply schedule; on success the reported peers answered, are sorted by distance, at most k, and every learned peer closer than the furthest reported one was contacted; every record/provider returned by a peer surfaces exactly once; no request after a GET_VALUE quorum is met.", ref="DESIGN.md §5 C15"),
+    "C17": dict(engine="kadsim", technique="deterministic simulation on the virtual clock: operation histories with clock advances against the real MemoryStore in lock-step with a reference store",
+        text="The real MemoryStore runs on the simulated clock (record/provider expiry through std::time::Instant, refresh timers through tokio) and executes seeded histories of put / get / put_provider / get_providers / put_local_provider / remove_local_provider with clock advances placed across expiry instants, under drawn configurations incl. bounds 0 and 1, in lock-step with a reference store (maps and sorted vectors). Oracle: every read equals the reference; no expired record or provider is returned; no record above the size limit; at most max_records readable; providers strictly sorted by distance to the key (no duplicate provider), at most max_providers_per_key, addresses truncated to the bound; put_provider results equal the reference (closest retained, re-announcement in place, key bound).", ref="DESIGN.md §5 C17"),
+})
+
 NOT_BUILT = {
 }
 
